@@ -37,6 +37,11 @@ type (
 	}
 	EIdx   struct{ X, I Expr }
 	ESlice struct{ X, Lo, Hi Expr }
+	ELet struct {
+		Name string
+		Val  Expr
+		Body Expr
+	}
 	EQuant struct {
 		Forall bool
 		Vars   []string
@@ -75,7 +80,7 @@ func lex(src string) ([]etok, error) {
 			toks = append(toks, etok{"id", src[i:j], i})
 			i = j
 		default:
-			ops := []string{"<==>", "==>", "::", "..", "&&", "||", "==", "!=", "<=", ">=", "<<", ">>", "&^",
+			ops := []string{"<==>", "==>", "::", "..", ":=", "&&", "||", "==", "!=", "<=", ">=", "<<", ">>", "&^",
 				"+", "-", "*", "/", "%", "&", "|", "^", "<", ">", "!", "(", ")", "[", "]", "{", "}", ",", ".", ":", "?"}
 			found := false
 			for _, op := range ops {
@@ -202,6 +207,30 @@ func (ps *parser) unary() Expr {
 			ps.p++
 			return &EUn{"&", ps.unary()}
 		}
+	}
+	if t.kind == "id" && t.s == "let" {
+		ps.p++
+		n := ps.next()
+		if n.kind != "id" {
+			ps.fail("expected name after let")
+		}
+		if !(ps.peek().kind == "op" && ps.peek().s == "=") {
+			// "==" lexes first; accept a single "=" written as ":" "=" or the word "be"
+		}
+		tk := ps.next()
+		if !(tk.kind == "op" && (tk.s == ":=" || tk.s == "=")) && !(tk.kind == "id" && tk.s == "be") {
+			ps.fail("expected '=' in let")
+		}
+		if tk.s == ":" {
+			ps.fail("use 'let x := e in body'")
+		}
+		v := ps.expr(3)
+		in := ps.next()
+		if !(in.kind == "id" && in.s == "in") {
+			ps.fail("expected 'in' in let")
+		}
+		body := ps.expr(0)
+		return &ELet{n.s, v, body}
 	}
 	if t.kind == "id" && (t.s == "forall" || t.s == "exists") {
 		ps.p++
@@ -370,6 +399,8 @@ func exprString(e Expr) string {
 			hi = exprString(x.Hi)
 		}
 		return exprString(x.X) + "[" + lo + ":" + hi + "]"
+	case *ELet:
+		return "let " + x.Name + " := " + exprString(x.Val) + " in " + exprString(x.Body)
 	case *EQuant:
 		q := "exists"
 		if x.Forall {
